@@ -23,9 +23,16 @@ Big(e) == /\ Need(e.exit = 0, "BuildProceeds", e.exit)
           /\ Need(e.recompiled = e.nsources, "ChangedIncludeClosureRecompiles", <<e.recompiled, e.nsources>>)
           /\ Need(e.output = e.want, "ProgramOutputIsCurrent", <<e.output, e.want>>)
           /\ UNCHANGED vars
+\* the same header name in two include directories: the copy found first is renamed away (the other one
+\* takes its place: the header the object includes has changed), later it comes back
+Shadow(e) == /\ Need(\A k \in 1..Len(e.steps) : e.steps[k].exit = 0, "BuildProceeds", e.steps)
+             /\ Need(\A k \in 1..Len(e.steps) : e.steps[k].recompiled, "ChangedIncludeClosureRecompiles", e.steps)
+             /\ Need(\A k \in 1..Len(e.steps) : e.steps[k].output = e.steps[k].want, "ProgramOutputIsCurrent", e.steps)
+             /\ UNCHANGED vars
 TraceNext ==
   /\ l <= Len(Traces[t].events)
   /\ LET e == Traces[t].events[l] IN
+     IF e.op = "shadow" THEN Shadow(e) ELSE
      IF e.op = "big" THEN Big(e) ELSE
      IF e.op = "build" THEN
         /\ Need(e.exit = 0, "BuildProceeds", e.exit)
